@@ -179,7 +179,7 @@ def run_case(spec):
 
 
 def run():
-    chk = Check("C17")
+    chk = Check("C17", props_modules=["GFO.Props.C17", "GFO.Props.SmboRuns"])
     chk.build_and_audit()
     r = C.rng("C17")
     quick = C.tier() != "thorough"
@@ -221,4 +221,6 @@ def run():
         chk.monitor("C17 statement on real runs of the four model-based optimizers (options, non-finite regions, replacement, warm_start_smbo with in-space / out-of-space / non-finite rows)", n, fails)
     chk.assumptions.append("acquisition formulas (expected improvement, density ratio, Lipschitz bound), the surrogates and argsort are oracles: the monitor reads the acquisition vector the real code computed")
     scen.shutdown_manager()
+    from . import localgen
+    localgen.add_smbo_to(chk, C.rng("C17-smbo"), C.T(6, 40), constraint_p=0.4, nonfinite_p=0.3)
     return chk.finish()
